@@ -214,7 +214,9 @@ def main(pid, tier, replay_path=None):
                     for m in mons:
                         if m["property"] in spec["monitors"] or (m["property"] == pid):
                             mine.append((m["signature"], m["what"][:600]))
-                        elif m["signature"] == "router-panic" and pid in ("C05",):
+                        elif m["signature"] in ("router-panic", "close-waits"):
+                            # the model neither panics, deadlocks, leaks a goroutine nor
+                            # waits in Close: a disagreement on this history
                             mine.append((m["signature"], m["what"][:600]))
                     for sig, what in mine:
                         n_fail += 1
